@@ -4,6 +4,7 @@ CONSTANTS
   Fixed = FALSE
   AllowForeignClose = FALSE
   AllowCancel = TRUE
+  AllowStall = FALSE
 VIEW View
 INVARIANT PacketBoundary
 INVARIANT NoStaleOutput
